@@ -130,6 +130,11 @@ class DiffXDOMReader(object):
         self._set_content_options(section.preamble_section,
                                   section_info['options'])
 
+        # A preamble without an indent option is not indented. Record that,
+        # so that writing the section back doesn't apply the writer's
+        # default indentation.
+        section.preamble_section.options.setdefault('indent', None)
+
     def _read_diff_section(self, diffx, section, section_info):
         """Read a diff section.
 
